@@ -55,7 +55,7 @@ GU(db, st, n) == [db |-> db, status |-> st, n |-> n, reg |-> FALSE, mv |-> FALSE
 \*  scribbles: _run writes its progress into pre-existing (input) variables
 \*  postClears: the transcribed _postprocess clears a role of pre-existing variables without giving it to an output
 \*  rb       : what the transcribed _rollback undoes, subset of
-\*             {"perm","temp","unreg","roles","croles","runcols"} (only registered groups can be removed)
+\*             {"perm","temp","unreg","roles","croles","runcols","values"} (only registered groups can be removed)
 P(name, same, groups) ==
   [name |-> name, same |-> same, hooks |-> TRUE, noerr |-> FALSE, groups |-> groups, unreg |-> 0, postUnreg |-> FALSE,
    cmoves |-> FALSE, runUnreg |-> 0, lies |-> {}, scribbles |-> FALSE, postClears |-> FALSE, rb |-> {"perm", "temp"}]
